@@ -192,6 +192,33 @@ func cmdCheck(args []string) (code int) {
 	c := &Ctx{P: p, R: r, Tier: *tier, Dir: *repo, Overlay: overlay}
 	allRepoFuncs = p.RepoFuncs()
 	pc.Run(c)
+	if *tier == "thorough" {
+		// second build configuration: the files behind the repository's own build tag
+		for _, tags := range []string{"debug"} {
+			p2, err := LoadProgram(*repo, repoPatterns, overlay, tags)
+			if err != nil {
+				fmt.Fprintf(os.Stderr, "load with -tags=%s failed (no verdict): %v\n", tags, err)
+				return 2
+			}
+			r2 := NewReport(*prop, *tier, p2.Roots[0].Fset, *repo)
+			allRepoFuncs = p2.RepoFuncs()
+			pc.Run(&Ctx{P: p2, R: r2, Tier: *tier, Dir: *repo, Overlay: overlay})
+			have := map[string]bool{}
+			for _, f := range r.Findings {
+				have[f.Key] = true
+			}
+			extra := 0
+			for _, f := range r2.Findings {
+				if !have[f.Key] {
+					f.What = "[only with -tags=" + tags + "] " + f.What
+					r.Findings = append(r.Findings, f)
+					extra++
+				}
+			}
+			r.Note("thorough: re-analysed with -tags=%s: %d obligations, %d finding(s) not present in the default configuration", tags, len(r2.Obligations), extra)
+		}
+		allRepoFuncs = p.RepoFuncs()
+	}
 	known, err := loadKnown(filepath.Join(vdir, "known_findings.json"))
 	if err != nil {
 		fmt.Fprintln(os.Stderr, err)
